@@ -137,19 +137,10 @@ def oracle(ctx, deep):
     # that is the process whose outcome probabilities (1/count each, conditionally) Entropy() accounts for; a password produced
     # any other way (from a stream on which every permitted attempt fails, say) carries probability mass on top of it
     for meta, a, b in getattr(ctx, "gen_results", []):
-        d = chargen.parse_password(a)
-        if not d or d["outcome"] != "ok":
-            continue
-        r, budget = meta["_recipe"], meta["budget"]
-        if r.length < 1 or not r.alphabet():
-            continue
-        kind, cand, nbytes = chargen.simulate(r, budget, meta["_words"])
-        out = "".join(t[0].decode("utf-8", "replace") for t in d.get("tokens", []))
-        if kind == "exhausted" or (kind == "ok" and out != "".join(cand)):
-            ctx.violations.append({"finding_key": "C06-process", "recipe": meta["recipe"], "budget": budget,
-                                   "line": chargen.chargen_line(r, budget, meta["_words"]), "observed": a[:300],
-                                   "what": ("a password (%r) was returned on a stream on which all %d permitted attempts miss a requirement" % (out[:40], budget[0])) if kind == "exhausted"
-                                   else "the returned password %r is not the first satisfying candidate of its stream (%r)" % (out[:40], "".join(cand)[:40])})
+        msg = chargen.process_verdict(meta, a) if a else None
+        if msg:
+            ctx.violations.append({"finding_key": "C06-process", "recipe": meta["recipe"], "budget": meta["budget"],
+                                   "line": chargen.chargen_line(meta["_recipe"], meta["budget"], meta["_words"]), "observed": a[:300], "what": msg})
             break
     # a separator function whose recipe can fail: a missing separator is an outcome far likelier than 2^-Entropy (F8)
     for c, a, b in getattr(ctx, "wl_results", []):
